@@ -62,9 +62,9 @@ def lock? : List String → Option Lock
 
 /-- harness request name ↦ request kind of the generated table -/
 def reqKind? : String → Option Kind
-  | "validate" | "signholder" | "signcp" => some .channel_request
+  | "validate" | "signholder" | "signcp" | "paycp" => some .channel_request
   | "point" => some .channel_base_request
-  | "forget" => some .forget_channel
+  | "forget" | "forgetdb" => some .forget_channel
   | "balance" => some .channel_balance
   | "chaninfo" => some .chaninfo
   | "heartbeat" => some .get_heartbeat
@@ -76,6 +76,7 @@ def reqKind? : String → Option Kind
   | "setupchan" => some .setup_channel
   | "signonchain" => some .unchecked_sign_onchain_tx
   | "addblock" => some .add_block
+  | "rmblock" => some .remove_block
   | s => Kind.ofString? s
 
 def allowed (ks : List Kind) (h c : Cls) : Bool := ks.any (fun k => (edges k).contains (h, c))
